@@ -1,7 +1,4 @@
-import Tmv.Lemmas.LightRpc
-import Tmv.Lemmas.ProtoEnc
-import Tmv.Lemmas.MerkleComplete
-import Tmv.Props.C10
+import Tmv.Lemmas.LightRpcAux
 /-! # C20 — the verifying RPC client relays an answer iff it matches light-verified headers
 
 Property theorems only, about the model `Tmv.LightRpc` of /repo light/rpc/client.go (as repaired by
@@ -22,13 +19,6 @@ structure HonestBlock (t : LightBlock) (hb : Block) : Prop where
   data : t.header.dataHash = txsHash H hb.txs
   commit : t.header.lastCommitHash = commitHash H hb.lastCommitSigs
   evidence : t.header.evidenceHash = evidenceHash H hb.evidence
-
-theorem fBytes_cancel (L : Nat) (hL : 0 < L) (tag : UInt8) (x y : Bytes) (hx : x.length = L) (hy : y.length = L)
-    (h : fBytes tag x = fBytes tag y) : x = y := by
-  have hxne : x ≠ [] := by intro e; rw [e] at hx; simp at hx; omega
-  have hyne : y ≠ [] := by intro e; rw [e] at hy; simp at hy; omega
-  simp only [fBytes, hxne, hyne, if_false, hx, hy, List.cons.injEq, true_and] at h
-  exact List.append_cancel_left h
 
 /-- the chain the providers serve is well formed: the block served for height `k` is labelled `k`
 and carries a validators hash (both are checked by the light client before it trusts a block) -/
@@ -156,37 +146,6 @@ theorem relay_complete_block (lc : LC) (hok : ChainOK lc) (k : Int) (t : LightBl
   simp [hbid, hh.header]
 
 /-! ## Tx (with inclusion proof) -/
-
-/-- inclusion for every tree, the empty one included: a proof verifying against `root items` is for
-one of the items -/
-theorem verify_inclusion_any (L : Nat) (hL : 0 < L) (hlen : ∀ x, (H x).length = L)
-    (items : List Bytes) (leaf : Bytes) (p : Proof)
-    (hv : verify H (root H items) leaf p = .ok ()) :
-    leaf ∈ items ∨ Nonempty (Collision H) := by
-  by_cases hne : items = []
-  · right
-    subst hne
-    unfold verify at hv
-    split at hv; · cases hv
-    split at hv; · cases hv
-    split at hv; · cases hv
-    rename_i hleaf
-    have hrne : root H [] ≠ [] := by
-      intro h
-      have := rootF_len H L hlen ([] : List Bytes).length []
-      unfold root at h; rw [h] at this; simp at this; omega
-    have hcomp : computeRoot H p = some (root H []) := by
-      split at hv
-      · simp [hrne] at hv
-      · rename_i h heq; split at hv
-        · rename_i e; rw [heq, e]
-        · cases hv
-    unfold computeRoot at hcomp
-    split at hcomp; · cases hcomp
-    have hlh : p.leafHash = leafHash H leaf := by simpa using hleaf
-    rw [hlh] at hcomp
-    exact fromAunts_ne_emptyHash H leaf _ _ _ _ hcomp
-  · exact C10.verify_inclusion H L hL hlen items hne leaf p hv
 
 /-- **Soundness (Tx with proof).** A relayed transaction answer names a height the providers have;
 the proof's root is that header's `DataHash`; the returned bytes are the proven bytes, hash to the
@@ -372,35 +331,6 @@ theorem relay_complete_params (lc : LC) (k : Int) (hk : 0 < k) (t : LightBlock)
 
 /-! ## BlockchainInfo -/
 
-theorem verifyMetas_sound :
-    ∀ (metas : List (Option BlockMeta)) (lc lc' : LC), verifyMetas H lc metas = (.ok, lc') →
-      lc'.chain = lc.chain ∧
-      ∀ x ∈ metas, ∃ m t, x = some m ∧ lc.at? m.header.height = some t ∧
-        m.header.hash H = t.header.hash H := by
-  intro metas
-  induction metas with
-  | nil => intro lc lc' h; simp [verifyMetas] at h; subst h; simp
-  | cons x rest ih =>
-    intro lc lc' h
-    cases x with
-    | none => simp [verifyMetas] at h
-    | some m =>
-      simp only [verifyMetas] at h
-      split at h
-      · simp at h
-      · rename_i t lc1 hupd
-        obtain ⟨hchain, _, hat⟩ := updateTo_ok lc lc1 _ t hupd
-        split at h; · simp at h
-        rename_i hhash
-        obtain ⟨hc2, hrest⟩ := ih lc1 lc' h
-        refine ⟨by rw [hc2, hchain], ?_⟩
-        intro y hy
-        simp only [List.mem_cons] at hy
-        rcases hy with rfl | hy
-        · exact ⟨m, t, rfl, hat _ rfl, by simpa using hhash⟩
-        · obtain ⟨m', t', e1, e2, e3⟩ := hrest y hy
-          exact ⟨m', t', e1, by rw [← at?_of_chain_eq lc lc1 hchain]; exact e2, e3⟩
-
 /-- **Soundness (BlockchainInfo).** In a relayed answer every block meta is non-nil, names a height the
 providers have, its header hashes to the verified header's hash (so its encoded fields are the
 verified ones, or a collision is exhibited) and its `BlockID.Hash` is that hash. `BlockSize`,
@@ -456,30 +386,6 @@ theorem relay_sound_blockchainInfo (L : Nat) (hL : 0 < L) (hlen : ∀ x, (H x).l
     · simp at hacc
   · exact key lc rfl hacc
 
-theorem verifyMetas_complete :
-    ∀ (metas : List (Option BlockMeta)) (lc : LC),
-      (∀ x ∈ metas, ∃ m t, x = some m ∧ lc.at? m.header.height = some t ∧ m.header = t.header) →
-      ∃ lc', verifyMetas H lc metas = (.ok, lc') := by
-  intro metas
-  induction metas with
-  | nil => intro lc _; exact ⟨lc, rfl⟩
-  | cons x rest ih =>
-    intro lc hall
-    obtain ⟨m, t, e1, e2, e3⟩ := hall x (by simp)
-    subst e1
-    obtain ⟨lc1, hupd⟩ := updateTo_some_complete lc _ t e2
-    obtain ⟨hchain, _, _⟩ := updateTo_ok lc lc1 _ t hupd
-    have hrest : ∀ y ∈ rest, ∃ m t, y = some m ∧ lc1.at? m.header.height = some t ∧ m.header = t.header := by
-      intro y hy
-      obtain ⟨m', t', a, b, c⟩ := hall y (by simp [hy])
-      exact ⟨m', t', a, by rw [at?_of_chain_eq lc lc1 hchain]; exact b, c⟩
-    obtain ⟨lc2, h2⟩ := ih lc1 hrest
-    refine ⟨lc2, ?_⟩
-    simp only [verifyMetas]
-    rw [hupd]
-    simp only [e3, ne_eq, not_true_eq_false, if_false]
-    exact h2
-
 /-- **Completeness (BlockchainInfo).** An answer all of whose metas carry the header of the block the
 providers have at that height, with the `BlockID` whose hash is the header's, is relayed — whatever
 the number and order of the listed heights and whatever the light client had stored before. -/
@@ -516,51 +422,6 @@ theorem relay_complete_blockchainInfo (lc : LC) (metas : List (Option BlockMeta)
       exact verifyMetas_complete H metas lc1 (hall' lc1 hchain)
 
 /-! ## ABCIQuery (value proofs through the default proof runtime) -/
-
-/-- the leaf bytes of a simple-map tree: `encodeByteSlice(key) ++ encodeByteSlice(H value)` -/
-def kvBytes (k v : Bytes) : Bytes := encBS k ++ encBS (H v)
-
-/-- a store: its key/value pairs in tree order; the application state: named stores in tree order -/
-abbrev Store := List (Bytes × Bytes)
-def storeLeaves (kvs : Store) : List Bytes := kvs.map fun kv => kvBytes H kv.1 kv.2
-def storeRoot (kvs : Store) : Bytes := root H (storeLeaves H kvs)
-def appLeaves (stores : List (Bytes × Store)) : List Bytes :=
-  stores.map fun s => kvBytes H s.1 (storeRoot H s.2)
-/-- the AppHash an application with these stores reports (root over the store roots) -/
-def appHashOf (stores : List (Bytes × Store)) : Bytes := root H (appLeaves H stores)
-
-/-- one `ValueOp`: if its output is the root of a tree, its (key, argument) leaf is in that tree -/
-theorem runOp_inclusion (L : Nat) (hL : 0 < L) (hlen : ∀ x, (H x).length = L)
-    (o : ProofOp) (value out : Bytes) (leaves : List Bytes)
-    (hrun : runOp H o value = some out) (hroot : out = root H leaves) :
-    kvBytes H o.key value ∈ leaves ∨ Nonempty (Collision H) := by
-  unfold runOp at hrun
-  split at hrun; · cases hrun
-  rename_i hleaf
-  have hleaf' : o.proof.leafHash = leafHash H (kvBytes H o.key value) := by
-    have : kvLeaf H o.key value = o.proof.leafHash := by simpa using hleaf
-    rw [← this]; rfl
-  have hcomp : computeRoot H o.proof = some (root H leaves) := by rw [hrun, hroot]
-  unfold computeRoot at hcomp
-  split at hcomp; · cases hcomp
-  rw [hleaf'] at hcomp
-  by_cases hne : leaves = []
-  · right; subst hne; exact fromAunts_ne_emptyHash H _ _ _ _ _ hcomp
-  · exact fromAunts_inclusion H L hlen leaves.length leaves (Nat.le_refl _) hne _ _ _ _ _ hcomp
-
-/-- equal KV leaves have equal keys and equal value hashes -/
-theorem kvBytes_inj (L : Nat) (hL64 : L < 2 ^ 64) (hlen : ∀ x, (H x).length = L) (k k' v v' : Bytes)
-    (hk : k.length < 2 ^ 64) (hk' : k'.length < 2 ^ 64) (h : kvBytes H k v = kvBytes H k' v') :
-    k = k' ∧ H v = H v' := by
-  unfold kvBytes at h
-  obtain ⟨e1, e2⟩ := encBS_append_inj _ _ _ _ hk hk' h
-  have e2' : encBS (H v) ++ [] = encBS (H v') ++ [] := by simpa using e2
-  obtain ⟨e3, _⟩ := encBS_append_inj _ _ _ _ (by rw [hlen]; exact hL64) (by rw [hlen]; exact hL64) e2'
-  exact ⟨e1, e3⟩
-
-/-- key lengths an application can have (anything protobuf can carry) -/
-def StoresWF (stores : List (Bytes × Store)) : Prop :=
-  ∀ s ∈ stores, s.1.length < 2 ^ 64 ∧ ∀ kv ∈ s.2, kv.1.length < 2 ^ 64
 
 /-- **Soundness (ABCIQuery), partial: answers carrying exactly two proof operators** (the shape
 `DefaultMerkleKeyPathFn` is made for: value-in-store, store-in-app). A relayed answer has code 0, a
@@ -689,15 +550,30 @@ theorem relay_sound_abci_partial (L : Nat) (hL : 0 < L) (hL64 : L < 2 ^ 64) (hle
                       · simp [h4] at hrun
                 · simp [h3] at hrun
 
-theorem computeRoot_proofOf (items : List Bytes) (i : Nat) (hi : i < items.length) :
-    computeRoot H (proofOf H items i) = some (root H items) := by
-  have hc := fromAunts_auntsF H items.length items i hi (Nat.le_refl _)
-  have hget : items[i]?.getD [] = items.getD i [] := by simp [List.getD_eq_getElem?_getD]
-  rw [hget] at hc
-  unfold computeRoot proofOf
-  have h3 : ¬ ((i : Int) < 0 ∨ (items.length : Int) ≤ 0) := by omega
-  simp only [h3, if_false, Int.toNat_natCast]
-  exact hc
+/-- **Soundness (ABCIQuery), partial: answers all of whose proof operators carry a key** — the same
+conclusion as `relay_sound_abci_partial` under the hypothesis that excludes exactly the keyless
+operators discussed there (such an answer has two operators). -/
+theorem relay_sound_abci_keyed_partial (L : Nat) (hL : 0 < L) (hL64 : L < 2 ^ 64) (hlen : ∀ x, (H x).length = L)
+    (lc lc' : LC) (store : Option Bytes) (r : ABCIResp) (hkeyed : ∀ o ∈ r.ops, o.key ≠ [])
+    (hacc : verifyABCI H lc store r = (.ok, lc')) :
+    r.code = 0 ∧ ∃ t v st s' k', lc.at? (r.height + 1) = some t ∧ lc'.chain = lc.chain ∧
+      r.value = some v ∧ store = some st ∧ keyRoundTrip st = some s' ∧ keyRoundTrip r.key = some k' ∧
+      (∀ stores, t.header.appHash = appHashOf H stores → StoresWF stores →
+        s'.length < 2 ^ 64 → k'.length < 2 ^ 64 →
+        (∃ kvs, (s', kvs) ∈ stores ∧ (k', v) ∈ kvs) ∨ Nonempty (Collision H)) := by
+  obtain ⟨t, v, s', k', hver⟩ := verifyABCI_ok_verifyValue H lc lc' store r hacc
+  have htwo : r.ops.length = 2 := by
+    simp only [verifyValue, Bool.and_eq_true] at hver
+    obtain ⟨_, hrun⟩ := hver
+    cases hr : runOps H r.ops [s', k'] v with
+    | none => simp [hr] at hrun
+    | some p =>
+      obtain ⟨keys', out⟩ := p
+      simp only [hr, Bool.and_eq_true, decide_eq_true_eq] at hrun
+      have := runOps_keyed_length H r.ops [s', k'] v keys' out hkeyed hr
+      rw [hrun.2] at this
+      simpa using this.symm
+  exact relay_sound_abci_partial H L hL hL64 hlen lc lc' store r htwo hacc
 
 /-- the two operators an honest application returns for pair `i` of store `j` -/
 def honestOps (stores : List (Bytes × Store)) (j i : Nat) : List ProofOp :=
@@ -847,57 +723,6 @@ theorem relay_complete_validators (lc : LC) (k : Int) (l : LightBlock) (hat : lc
 
 /-! ### a concrete one-block chain (used for the witnesses and the non-vacuity examples) -/
 namespace Wit
-def z32 : Bytes := List.replicate 32 0
-def H0 : Bytes → Bytes := fun _ => z32
-
-theorem H0_len : ∀ x, (H0 x).length = 32 := by intro x; simp [H0, z32]
-
-theorem root_H0 (xs : List Bytes) : root H0 xs = z32 := by
-  unfold root
-  cases h : xs.length with
-  | zero => rfl
-  | succ n =>
-    match xs with
-    | [] => rfl
-    | [x] => rfl
-    | a :: b :: c => rw [rootF_cons2]; rfl
-
-def hdr : Header :=
-  { versionBlock := 11, versionApp := 0, chainID := [99], height := 1, timeSec := 5, timeNanos := 0,
-    lastBlockID := { hash := [], total := 0, psHash := [] }, lastCommitHash := z32, dataHash := z32,
-    validatorsHash := z32, nextValidatorsHash := z32, consensusHash := z32, appHash := z32,
-    lastResultsHash := [], evidenceHash := z32, proposer := List.replicate 20 0 }
-
-def lb : LightBlock :=
-  { header := hdr, commitBlockID := { hash := z32, total := 1, psHash := z32 },
-    vals := [{ address := List.replicate 20 1, power := 10 }] }
-
-def lc0 : LC := { chain := [lb], stored := [1] }
-
-def blk : Block :=
-  { header := hdr, txs := [], evidence := [], evidenceOK := true, lastCommitNil := false,
-    lastCommitSigs := [], lastCommitOK := true }
-
-theorem hdr_hash : hdr.hash H0 = z32 := by
-  unfold Header.hash
-  have : hdr.validatorsHash ≠ [] := by decide
-  simp only [this, if_false]
-  exact root_H0 _
-
-theorem at_one : lc0.at? 1 = some lb := by simp [LC.at?, lc0]
-
-theorem at_inv (k : Int) (t : LightBlock) (h : lc0.at? k = some t) : k = 1 ∧ t = lb := by
-  unfold LC.at? at h
-  split at h; · cases h
-  rename_i hk
-  simp only [lc0] at h
-  cases hn : (k - 1).toNat with
-  | zero =>
-    rw [hn] at h
-    simp at h
-    exact ⟨by omega, h.symm⟩
-  | succ n => rw [hn] at h; simp at h
-
 theorem chainOK : ChainOK lc0 where
   vh := by intro k t h; rw [(at_inv k t h).2]; decide
   height := by intro k t h; obtain ⟨e1, e2⟩ := at_inv k t h; rw [e1, e2]; rfl
@@ -974,42 +799,6 @@ theorem relay_sound_blockchainInfo_partSetHeader_fails : ¬ MetaBindsPartSetHead
 
 /-! ## Latest-height requests (no height given) -/
 
-theorem foldl_max_ge (l : List Int) (a : Int) : a ≤ l.foldl (fun a b => if a < b then b else a) a := by
-  induction l generalizing a with
-  | nil => simp
-  | cons x xs ih =>
-    simp only [List.foldl_cons]
-    split
-    · have := ih x; omega
-    · exact ih a
-
-theorem foldl_max_mem (l : List Int) (a : Int) :
-    l.foldl (fun a b => if a < b then b else a) a = a ∨ l.foldl (fun a b => if a < b then b else a) a ∈ l := by
-  induction l generalizing a with
-  | nil => left; rfl
-  | cons x xs ih =>
-    simp only [List.foldl_cons]
-    split
-    · rcases ih x with h | h
-      · right; rw [h]; simp
-      · right; simp [h]
-    · rcases ih a with h | h
-      · left; exact h
-      · right; simp [h]
-
-theorem foldl_max_ge_mem (l : List Int) (a x : Int) (hx : x ∈ l) :
-    x ≤ l.foldl (fun a b => if a < b then b else a) a := by
-  induction l generalizing a with
-  | nil => cases hx
-  | cons y ys ih =>
-    simp only [List.foldl_cons]
-    simp only [List.mem_cons] at hx
-    rcases hx with rfl | hx
-    · split
-      · exact foldl_max_ge ys x
-      · have := foldl_max_ge ys a; omega
-    · exact ih _ hx
-
 /-- the light client's store after initialisation: non-empty, and every stored height is one the
 providers serve -/
 structure StoreOK (lc : LC) : Prop where
@@ -1085,6 +874,22 @@ example : ∃ res lc', verifyBlock Wit.H0 Wit.lc0 res = (.ok, lc') :=
 /-- … and a refused one -/
 example : (verifyBlock Wit.H0 Wit.lc0 { blockID := Wit.badBid, block := none }).1 = .errBlock := by
   decide
+
+/-- the hypotheses of `relay_complete_abci` are satisfiable (one store `s` holding `k ↦ v`), so an
+accepted proven query exists and `relay_sound_abci_partial` is not vacuous -/
+example : ∃ lc', verifyABCI Wit.H0 { chain := [Wit.lb, Wit.lb], stored := [1] } (some [115])
+    { code := 0, key := [107], value := some [118], height := 1, opsNil := false,
+      ops := honestOps Wit.H0 [([115], [([107], [118])])] 0 0 } = (.ok, lc') := by
+  have hat : LC.at? { chain := [Wit.lb, Wit.lb], stored := [1] } (1 + 1) = some Wit.lb := by
+    simp [LC.at?]
+  have happ : Wit.lb.header.appHash = appHashOf Wit.H0 [([115], [([107], [118])])] := by
+    show Wit.z32 = root Wit.H0 _; rw [Wit.root_H0]
+  have hdec : ∀ o ∈ honestOps Wit.H0 [([115], [([107], [118])])] 0 0, o.decodes = true := by
+    intro o ho
+    simp only [honestOps, List.getD_cons_zero, List.mem_cons, List.not_mem_nil, or_false] at ho
+    rcases ho with rfl | rfl <;> decide
+  exact relay_complete_abci Wit.H0 _ 1 (by decide) Wit.lb hat [([115], [([107], [118])])] happ 0 0
+    (by decide) (by decide) (by decide) (by decide) (by decide) (by decide) hdec
 
 /-- well-formed results / parameters exist -/
 example : (TxResult.WF { code := 0, data := [1], gasWanted := 5, gasUsed := -1 }) ∧ I64 (-1) := by
